@@ -1,6 +1,23 @@
 ALL = ["C%02d" % i for i in range(1, 21)]
 
 CLAIMED = {
+    "C09": dict(
+        text="PARTIAL. Lean 4 theorems over an interleaving model of the one mutable field that block execution and queries share "
+             "(Keeper.Bank.StateDB: published by NewStateDB, adopted and cleared by EthereumTx / ConvertCoinToEvm in DeliverTx and in "
+             "Simulate alike, written through by every NIBI-moving bank operation): for EVERY interleaving of the block thread with a "
+             "query whose steps are isolated (EthCall / EstimateGas with a private StateDB and no bank-moving precompile, plain reads) "
+             "the block commits exactly what it commits alone (simulation relation, induction over schedules); closed "
+             "counterexample schedules for an eth_call reaching a bank-moving precompile and for a simulated Ethereum tx (inside the "
+             "block's tx, and published first). The counterexamples are replayed on the real keeper at deterministic yield points "
+             "(a precompile registered through Keeper.AddPrecompiles runs the query in the middle of the block's tx) and recorded as "
+             "known findings C09-ethcall-bank-precompile, C09-simulate-ethtx, C09-simulate-convert; the isolated query kinds are "
+             "checked to leave the block's result unchanged.",
+        note="The property is FALSE on the unchanged tree for the listed query kinds (not repaired: the repair is a redesign of how "
+             "the StateDB reaches the bank wrapper). What no model can exhibit: the Go scheduler, the memory model, data races proper; "
+             "the harness replays sequentialised schedules only. Trusted: Lean kernel; harness.",
+        technique="Lean 4 proof (simulation relation over all interleavings; closed counterexample schedules by simp) + deterministic "
+                  "yield-point replay on the real keeper with property oracle",
+        ref="§7 C09"),
     "C01": dict(
         text="PARTIAL. Lean 4 theorems for every permutation in which Go may deliver a map's entries: the sorted key list is unique "
              "(sortedDirties, Storage.SortedKeys, omap.ensureOrder), a fold of per-key updates into a keyed store is order-independent "
